@@ -47,6 +47,8 @@ type Task struct {
 	Read   ReadPlan   `json:"read"`
 	// WriteFail: the n-th Write call of the sink fails (Encode only; 0 = never)
 	WriteFail int `json:"write_fail,omitempty"`
+	// Sink "buffer": Encode writes into a *bytes.Buffer instead of the simulated writer
+	Sink string `json:"sink,omitempty"`
 	// Between: applied to the File between repeated Encode calls, e.g. "proto:16"
 	// (set Header.ProtocolVersion) - a header that is re-used after a change
 	Between string `json:"between,omitempty"`
